@@ -67,7 +67,8 @@ fn check_cfg(property: &str, thorough: bool) -> Option<orch::CheckCfg> {
         runs,
         chunk,
         workers,
-        hang_limit_s: if thorough { 60.0 } else { 20.0 },
+        // generous: a loaded machine must not turn a slow run into a "hang"
+        hang_limit_s: if thorough { 90.0 } else { 40.0 },
         soft_deadline_s: if thorough { 1500.0 } else { 100.0 },
         det_mod: if thorough { 17 } else { 13 },
         det_chunks: if thorough { 256 } else { 32 },
